@@ -89,6 +89,12 @@ class HarnessError(Exception):
 def _worker_init() -> None:
     faulthandler.enable()
     signal.signal(signal.SIGINT, signal.SIG_IGN)
+    try:  # runs of Engine A start from one frozen image per worker, whatever the worker ran before
+        from detsim import runner  # pylint: disable=import-outside-toplevel
+
+        runner.USE_ZYGOTE = True
+    except ImportError:
+        pass
 
 
 def _guard(fn, arg, limit):
